@@ -307,6 +307,21 @@ def check_solution(v, manager, cf, rel, r, settings, cls, first_time):
         if d > 1e-3 * scale:
             v.fail("attached-endpoints", cls,
                    f"field profile end points differ from the phases at T-/T+ by {d / scale:.2e} (relative)")
+    # 4b''. the reported plasma velocity is in the wall frame: far behind / in front of the wall (where the deviations
+    #      from equilibrium vanish identically) it is -v- / -v+ of the matching at the reported velocity; asserted for
+    #      LTE and off-equilibrium solves alike (2 % relative: a profile left in another frame is off by O(1))
+    vpr = np.asarray(r.velocityProfile, dtype=float)
+    try:
+        mvp, mvm = (float(x) for x in hyd.findMatching(vw)[:2])
+    except (TypeError, ValueError):
+        mvp = mvm = float("nan")
+    if vpr.shape == tp.shape and math.isfinite(mvp) and math.isfinite(mvm):
+        v.checked("attached-frame")
+        v.info["frame_end_err"] = max(abs(vpr[0] + mvm) / mvm, abs(vpr[-1] + mvp) / mvp)
+        if abs(vpr[0] + mvm) > 0.02 * mvm + 1e-9 or abs(vpr[-1] + mvp) > 0.02 * mvp + 1e-9:
+            v.fail("attached-frame", cls + (" offEq" if settings.get("offEq") and len(model_particles(manager)) else " LTE"),
+                   f"reported velocityProfile ends at ({vpr[0]!r}, {vpr[-1]!r}); wall-frame velocities of the matching at the "
+                   f"reported wall velocity are (-v-, -v+) = ({-mvm!r}, {-mvp!r})")
     if settings.get("offEq") and len(model_particles(manager)):
         # With out-of-equilibrium particles (synthetic collision kernels, coarse momentum grids) the
         # pressure is not a smooth function of v at the scale of errTol: the solver's own evaluation
